@@ -634,7 +634,16 @@ def _run_history(case, ctx):
         err_before = numpy.geterr()
         mod_before = module_state()
         got = _outcome(q, *args)
-        fps_after = [fingerprint(x) for x in args]
+        try:
+            fps_after = [fingerprint(x) for x in args]
+        except Exception as exc:
+            ctx.violation("%s/argument-unusable-afterwards" % name.split("(")[0], "after a read-only call the identifier / labels / data of an argument can no longer be read", query=name, exc=exc,
+                          history=trail[-6:], source=source)
+            obj = make_object(source, seed)
+            partner = _co2(seed + 1) if source in ("co2", "model", "origin") else None
+            other = None
+            prev = None
+            continue
         mod_after = module_state()
         if mod_after != mod_before:
             ctx.violation("%s/changes-module-level-state" % name.split("(")[0], "a read-only call changed module-level state of the library (model lists / session registries)", query=name,
